@@ -408,6 +408,9 @@ class MultiField(Operator):
                         for v1, v2 in zip(self._val, other._val))
         else:
             val = tuple(f(v1, other) for v1 in self._val)
+            if any(v is NotImplemented for v in val):
+                # let the other operand (operator, Linearization) handle the operation, as Field does
+                return NotImplemented
         return MultiField(self._domain, val)
 
 
